@@ -27,7 +27,7 @@ def _(c):
     c.families = ("plain",)
     c.result_tag = "any"
     c.pure()
-    c.may_raise("Exception", ensures=None, name="callback raises")
+    c.may_raise("Callback", ensures=None, name="callback raises")
 
     def post(x):
         if x.a.tag("fn") == "none":
